@@ -95,7 +95,65 @@ def outermost_oracle(x, **kw) -> Optional[str]:
     if len(o.contexts) != len(f.contexts) or any(a.obj is not b.obj or a.is_exiting != b.is_exiting or a.is_async != b.is_async
                                                    for a, b in zip(o.contexts, f.contexts)):
         return "extract_outermost frame's contexts differ from extract(x).frames[0].contexts"
+    # …and all the way down (inner stacks, children of the contexts: stubs vs populated child stacks, hidden flags)
+    from ..c06_worker import norm_stack
+
+    wrap = lambda fr: stackscope.Stack(root=None, frames=[fr])
+    if norm_stack(wrap(o)) != norm_stack(wrap(f)):
+        return ("extract_outermost frame's context trees differ from those of extract(x).frames[0] "
+                f"(children / inner stacks: {[(len(a.children), [len(getattr(ch, 'frames', ())) for ch in a.children]) for a in o.contexts]} vs "
+                f"{[(len(b.children), [len(getattr(ch, 'frames', ())) for ch in b.children]) for b in f.contexts]})")
     return None
+
+
+def run_taskset(case) -> dict:
+    """The outermost frame holds a manager whose elaborate_context hook reports child tasks through
+    extract_child(..., for_task=True): extract_outermost must treat them exactly as extract does, for every option pair."""
+    import stackscope
+
+    class TaskSet:
+        def __init__(self, tasks):
+            self.tasks = tasks
+
+        def __enter__(self):
+            return self
+
+        def __exit__(self, *a):
+            return False
+
+    @stackscope.elaborate_context.register(TaskSet)
+    def _elab(mgr, context):
+        context.children = [stackscope.extract_child(t, for_task=True) for t in mgr.tasks]
+
+    def child(n):
+        if n:
+            yield from child(n - 1)
+        else:
+            yield 1
+
+    kids = [child(i % 3) for i in range(case["nkids"])]
+    for k in kids:
+        next(k)
+
+    def holder():
+        with TaskSet(kids):
+            yield 1
+
+    def wrapper():
+        yield from holder()
+
+    x = holder() if not case["wrapped"] else wrapper()
+    next(x)
+    probs = []
+    for wc in (True, False):
+        for rc in (True, False):
+            p = outermost_oracle(x, with_contexts=wc, recurse_child_tasks=rc)
+            if p:
+                probs.append(f"with_contexts={wc}, recurse_child_tasks={rc}: {p}")
+    p = outermost_oracle(x)
+    if p:
+        probs.append(f"default options: {p}")
+    return {"problems": probs, "frames": 1}
 
 
 # ------------------------------------------------------------------------------------------
@@ -273,6 +331,9 @@ class C16(PropCheck):
                 continue
             out.append(c2)
         out += running_scenarios((0, 1, 3) if tier == "quick" else (0, 1, 2, 3, 5, 8))
+        for nk in (1, 2, 4):
+            for wrapped in (False, True):
+                out.append({"k": "taskset", "nkids": nk, "wrapped": wrapped})
         try:
             from .. import chains
 
@@ -319,6 +380,8 @@ class C16(PropCheck):
                 return "raise " + w.show_err(e)
         if case["k"] == "running":
             return run_running(case)
+        if case["k"] == "taskset":
+            return run_taskset(case)
         if case["k"] == "chain":
             from .. import chains
 
